@@ -149,7 +149,7 @@ class Report:
             if line not in self.known:
                 self.known.append(line)
                 print(line)
-            return
+            return False
         self._n += 1
         payload = dict(payload)
         payload.update(property=self.prop, obligation=obligation, key=key, failing_input_found=bool(failing_input_found))
@@ -161,6 +161,7 @@ class Report:
             line += ' no-failing-input-found'
         print(line)
         sys.stdout.flush()
+        return True
 
     def undecide(self, why):
         self.undecided.append(why)
